@@ -311,10 +311,12 @@ class Server:
         uid = id(fut)
 
         with self._pipeline_notfull:
-            if len(pipeline) >= self._capacity:
+            while len(pipeline) >= self._capacity:
                 if backpressure:
                     raise ServerBacklogFull(len(pipeline))
-                if not self._pipeline_notfull.wait(timeout * 0.99):
+                # Re-check after waking up: another caller may have taken the slot.
+                t = t0 + timeout * 0.99 - perf_counter()
+                if t <= 0 or not self._pipeline_notfull.wait(t):
                     raise ServerBacklogFull(len(pipeline), perf_counter() - t0)
 
             self._input_buffer.put((uid, x))
@@ -553,15 +555,17 @@ class AsyncServer:
         uid = id(fut)
 
         async with self._pipeline_notfull:
-            if len(pipeline) >= self._capacity:
+            while len(pipeline) >= self._capacity:
                 if backpressure:
                     raise ServerBacklogFull(len(pipeline))
                     # If this is behind a HTTP service, should return
                     # code 503 (Service Unavailable) to client.
+                # Re-check after waking up: another caller may have taken the slot.
+                t = t0 + timeout * 0.99 - perf_counter()
                 try:
-                    await asyncio.wait_for(
-                        self._pipeline_notfull.wait(), timeout * 0.99
-                    )
+                    if t <= 0:
+                        raise asyncio.TimeoutError
+                    await asyncio.wait_for(self._pipeline_notfull.wait(), t)
                 except (
                     asyncio.TimeoutError,
                     TimeoutError,
